@@ -78,6 +78,8 @@ def claims(tier):
     K = 1 if q else 2
     for L in LETTERS:
         cl.append(Claim("determine[a0=%s]" % L, c03_determine, params={"L": L, "K": K}, group="c03_determine", pre=[lambda a, b: a[:1] == P["L"] and spelled(a, P["K"]) and spelled(b, P["K"])], timeout=400 if q else 2400, bounds="a = %s + {#,b}^<=%d, b = letter + {#,b}^<=%d, restricted to 0 <= distance along letters <= 11; long and short form" % (L, K, K)))
+    for L in LETTERS:
+        cl.append(Claim("determine_extreme[a0=%s]" % L, c03_determine, params={"L": L}, group="c03_determine", pre=[lambda a, b: a[:1] == P["L"] and len(a) == 3 and len(b) == 3 and a[1] == a[2] and b[1] == b[2] and a[1] != b[1] and spelled(a, 2) and spelled(b, 2)], timeout=400 if q else 2400, bounds="a = %s## or %sbb against b = letter + the opposite double accidental (the widest and narrowest intervals of every number)" % (L, L)))
     Kn = 1 if q else 2
     for deg in range(1, 8):
         cl.append(Claim("from_shorthand[deg=%d]" % deg, c03_from_shorthand, params={"deg": deg, "K": Kn}, pre=[lambda n, acc: spelled(n, P["K"]) and spelled("C" + acc, 2)], timeout=400 if q else 2400, bounds="n = letter + {#,b}^<=%d; shorthand = {#,b}^<=2 + '%d'; up, down, up-then-down" % (Kn, deg)))
